@@ -526,7 +526,12 @@ def run(program, model, rec, path, stats):
             entered = False
             left_by_boom = False
             try:
-                with errstate(**_real_kw(stmt["kw"])):
+                # the override object is made first and entered afterwards:
+                # making it must not touch the profile ("in force exactly
+                # within its block"); `with errstate(..)` is the same two steps
+                cm = errstate(**_real_kw(stmt["kw"]))
+                check_profile(model, where + " (override made, not entered)")
+                with cm:
                     entered = True
                     if new is None:
                         raise Violation("invalid-errstate-accepted", "%s "
